@@ -63,7 +63,9 @@ def gen_config(rng, profile="plain", opts=None):
         cfg["simulation"]["agents"].append("FCN")
     n_ses = opts.get("n_sessions", rng.choice([1, 2, 2, 3]))
     for k in range(n_ses):
-        ses = {"sessionName": k, "iterationSteps": opts.get("steps", rng.choice([2, 4, 6, 10])),
+        # a session of zero steps is valid (a switched-off warm-up): its hooks and records still happen
+        steps_opt = opts.get("steps", rng.choice([2, 4, 6, 10, 0, 2, 4, 6]))
+        ses = {"sessionName": k, "iterationSteps": steps_opt(k) if callable(steps_opt) else steps_opt,
                "withOrderPlacement": rng.random() < 0.85, "withOrderExecution": rng.random() < 0.7,
                "withPrint": rng.random() < 0.7,
                "maxNormalOrders": rng.choice([0, 1, 2, 3, 10]),
